@@ -241,6 +241,39 @@ def typing_sweep(ctx, mr):
             ctx.stat('typing_pairs')
 
 
+def missing_partition_case(ctx, case):
+    """a partition table WITHOUT a CTRNAND (or without a TWL) partition -- "any NCSD partition table": the image opens, and the partitions
+    that are there are served"""
+    from pyctr.type.nand import NAND
+    img, info, spec, kw, truth = NC.materialise(case['base'])
+    drop = case['drop']
+    slot = next((i for i, (fs, cr, o, sz) in enumerate(spec['table']) if (NB.kind_of(fs, cr) or '').startswith(drop)), None)
+    if slot is None:
+        return
+    img.poke(0x110 + slot, b'\0')
+    img.poke(0x118 + slot, b'\0')
+    img.poke(0x120 + 8 * slot, bytes(8))
+    ctx.stat('tables_without_' + drop)
+    rng = random.Random(case['base']['dseed'])
+    import logging
+    logging.disable(logging.ERROR)          # the reader logs that the partition is missing; that is expected here
+    try:
+        # (by default the reader insists on both partitions; auto_raise_exceptions=False is the documented way to open such an image)
+        r = NAND(img, auto_raise_exceptions=False, **kw)
+    except Exception as ex:
+        logging.disable(logging.NOTSET)
+        ctx.diff('oracle', 'open-raises:no-' + drop, case, 'a reader', pyenv.errname(ex) + ': ' + str(ex)[:80],
+                 f'NAND image whose partition table has no {drop.upper()} partition cannot be opened: {pyenv.errname(ex)}: {str(ex)[:60]}')
+        return
+    try:
+        for (start, end, kind, idx) in info['regions']:
+            if idx != slot and kind in ('firm', 'agb'):
+                check_view(ctx, case, f'section{idx}', r.open_raw_section(idx), img, spec, kind, start, end - start, rng, 2)
+    finally:
+        r.close()
+        logging.disable(logging.NOTSET)
+
+
 def run_cases(ctx, cases, sweep=True):
     mr = ModelRunner(oracles=dict(aes_enc=cc.aes_enc, aes_dec=cc.aes_dec))
     try:
@@ -248,7 +281,10 @@ def run_cases(ctx, cases, sweep=True):
             typing_sweep(ctx, mr)
         for case in cases:
             ctx.case(case)
-            run_case(ctx, mr, case)
+            if 'drop' in case:
+                missing_partition_case(ctx, case)
+            else:
+                run_case(ctx, mr, case)
     finally:
         mr.close()
         pyenv.uninstall_fake_boot9()
@@ -259,6 +295,8 @@ def run(ctx):
     cases = [NC.gen_case(ctx.rng) for _ in range(ctx.n(40, 800))]
     # directed: CTRNAND as table entry 0 (first with whatever CID mode comes up, then until one has the CID withheld)
     cases.append(NC.gen_case(ctx.rng, force=dict(ctr_slot0=True)))
+    for drop in ('ctr', 'twl', 'ctr', 'twl'):
+        cases.append(dict(drop=drop, base=NC.gen_case(ctx.rng, force=dict(cid_mode='given', otp_mode='dec', essential=False, bonus=False))))
     for _ in range(40):
         c0 = NC.gen_case(ctx.rng, force=dict(ctr_slot0=True))
         if c0['cid_mode'] == 'withheld':
